@@ -54,7 +54,7 @@ CHECKS = {
               "preceding Discard so that exactly one of the runs must recompute); Run(g,r) || Scan(r) || Discard(r); two shuffling programs; a pipelined and a shuffling consumer of a 2-shard result; "
               "Parallelism 1 and 2. All schedules with <= 2 (quick, budgeted) / 3 (thorough) scheduling deviations are enumerated modulo happens-before equivalence. Oracle per execution: each run succeeds with "
               "exactly its solo rows; the shared source task processes each row exactly once (twice after a discard: one recomputation, by one run); a scan racing a discard yields all rows or a correct prefix then an error; no deadlock. "
-              "Thorough additionally runs the same scenario bodies un-instrumented under the Go race detector (GOMAXPROCS 1,2,4,16); any report is a violation (this part samples schedules)."),
+              "Both tiers additionally run the same scenario bodies un-instrumented, on the local executor and on an in-process cluster, under the Go race detector (quick: GOMAXPROCS 4, 2 rounds; thorough: GOMAXPROCS 1,2,4,16, 8 rounds); any report is a violation (this part samples schedules)."),
         note=TRUSTED + " vsched assumptions as for C03. Bounded: 1-2 shard programs, 2-3 concurrent operations, stated deviation bounds with per-plan time budgets (bound actually completed is reported per plan). "
              "The 'no data races' clause is decided dynamically over sampled schedules, not exhaustively.",
         design_ref="§4 E1, §5 C19",
@@ -105,7 +105,7 @@ CHECKS = {
         technique="explicit-state enumeration of metric-scope operation sequences against a map model; controlled-scheduler exploration of concurrent scope use; end-to-end counter totals on both executors",
         text=("Sequences: with 1, 2 and 3 registered counters and 3 scopes, every sequence over {Incr(c,s,+-1), Value, Merge(s,t), Reset(s,t), Reset(s,nil), gob round trip, worker->driver transport} to depth 3 (quick, all) / "
               "5-7 (thorough, de-duplicated on presence/sharing/value of every slot) is replayed on fresh real scopes and compared with a map model after every step. Concurrency (layer S, flavour schedm: package metrics' atomics are "
-              "scheduling points): 2-3 threads Incr/Merge/Value one fresh scope (CAS creation of the instance list and instances), all schedules up to preemption bound 3 (+ delay bound 6 thorough) - final totals must be the sums. "
+              "scheduling points): 2-3 threads Incr/Merge/Value one fresh scope (CAS creation of the instance list and instances), all schedules up to preemption bound 3 (+ delay bound 6 thorough) - final totals must be the sums; the same bodies also run free under the Go race detector (a non-atomic access has no scheduling point; auxiliary, sampled). "
               "End-to-end: programs incrementing counters per row, 1-3 shards, with and without shuffles, both executors: Result.Scope() totals equal rows processed, once per task."),
         note=TRUSTED + " vsched assumptions as for C03.",
         design_ref="§5 C20",
